@@ -257,7 +257,9 @@ def gen_xml(apps):
             # as in the shipped 3GPP dictionary: names the vendor whose application this is; says nothing about any AVP's key
             out.append(f'<vendor id="{a["vendor_elem"]}" name="V{a["vendor_elem"]}"/>')
         for n, c in a["cmds"]:
-            out.append(f'<command code="{c}" short="X" name="{esc(n)}"><request></request><answer></answer></command>')
+            # the abbreviation of a command is not a name: it is chosen among the NAMES other commands are declared with
+            short = ["CC", "AA", "Cmd-A", "Cmd-B", "Credit-Control", "X"][(c + len(n)) % 6]
+            out.append(f'<command code="{c}" short="{short}" name="{esc(n)}"><request></request><answer></answer></command>')
         for d in a["avps"]:
             at = f'name="{esc(d["name"])}" code="{d["code"]}"'
             if d["must"] is not None:
